@@ -1,5 +1,6 @@
 """C11 — reconnection is single-flight (async_mutex level; the stream level is added by H-stream)."""
 from vlib import *
+import stream_check as SC
 
 
 class PyMutex:
@@ -186,6 +187,11 @@ def run(ctx):
                 a, _, _ = run_lines(hb, small); b, _, _ = run_lines(mdrv, small)
                 ctx.ties_broken.append("correspondence:async_mutex lock-step differs (model vs implementation)")
                 ctx.notes.append({"mutex_mismatch_script": small, "impl": a, "model": b})
+    # stream level: the real autoconnect_stream / reconnect_op / shutdown_op / read_op / write_op around the lock
+    found = SC.phase(ctx, "C11", 300 if ctx.tier == "quick" else 6000, 150) or found
+    ctx.cov["rule"] += ("; plus H-stream scenarios (real autoconnect_stream over a scripted socket/resolver/clock): simultaneous read/write/time-out/shutdown failures, "
+                        "cancel-all with restart, deferred cancellation completions; monitor: at most one connection attempt in progress, connect only under the lock, "
+                        "every operation completes exactly once")
     report_broken_ties(ctx, found)
     if ctx.tier == "thorough" and not ctx.ties_broken:
         for m, msg in leanchecker(ctx.lean.get("modules", [])):
